@@ -41,4 +41,6 @@ CORPUS = [
     T('c03-benign-switch-not-all-finite', "            if torch.any(torch.isinf(log_p)):\n                self.rescale = True\n                log_p = calculate_treelikelihood_tip_states_discrete_rescaled(",
       "            if not torch.isfinite(log_p).all() and torch.any(torch.isinf(log_p)):\n                self.rescale = True\n                log_p = calculate_treelikelihood_tip_states_discrete_rescaled(", benign=True),
     Mut('c03-benign-rename-scaler', TL, R, 'scalers.append(scaler)', 'scalers.append(scaler)\nn_scaled = len(scalers)', benign=True),
+    Mut('c03-scalers-escape-the-pattern-weights', 'torchtree/evolution/tree_likelihood.py', '', "    return torch.sum(\n        (\n            torch.log(freqs @ torch.sum(props * partials[post_indexing[-1][0]], dim=-3))\n            + torch.cat(scalers, -2).log().sum(dim=-2).unsqueeze(-2)\n        )\n        * weights,\n        dim=-1,\n    )\n", "    site_log_p = torch.log(freqs @ torch.sum(props * partials[post_indexing[-1][0]], dim=-3))\n    log_scalers = torch.cat(scalers, -2).log().sum(dim=-2).unsqueeze(-2)\n    return torch.sum(site_log_p * weights + log_scalers, dim=-1)\n", expect=[('C03.P', 'log-scalers-added-inside-weighted-sum')], mode='text', nth=1),
+    Mut('c03-benign-return-through-locals', 'torchtree/evolution/tree_likelihood.py', '', "    return torch.sum(\n        (\n            torch.log(freqs @ torch.sum(props * partials[post_indexing[-1][0]], dim=-3))\n            + torch.cat(scalers, -2).log().sum(dim=-2).unsqueeze(-2)\n        )\n        * weights,\n        dim=-1,\n    )\n", "    site_log_p = torch.log(freqs @ torch.sum(props * partials[post_indexing[-1][0]], dim=-3))\n    log_scalers = torch.cat(scalers, -2).log().sum(dim=-2).unsqueeze(-2)\n    return torch.sum((site_log_p + log_scalers) * weights, dim=-1)\n", benign=True, mode='text', nth=1),
 ]
